@@ -11,6 +11,8 @@ def load_contracts(modnames):
     contracts, models = {}, {}
     for m in modnames:
         mod = importlib.import_module(m)
+        if not isinstance(getattr(mod, 'CONTRACTS', None), dict) or getattr(mod, 'NOT_PYVC', False):
+            continue          # other tiers (uf mode, effects) keep their contracts in their own format
         contracts.update(mod.CONTRACTS)
         models.update(getattr(mod, 'CLASSMODELS', {}))
     return contracts, models
